@@ -42,9 +42,14 @@ def run(rep):
         "with contract Lex.Round (parse (print v) is a value of the type, == to v); the tie exercises it on every leaf, nothing proves it",
         "types with unexported fields (ext.X2, ext.X3) and chan/func/interface constituents are outside the property's quantifier",
         "values are finite trees (acyclic); aliasing inside the original is not reproduced by the text and not required by structural equality",
-        "type names in the text (package-qualified by package NAME) are exercised by the stage-2 compile, not modelled: "
-        "two imported packages with the same name are not in the corpus",
+        "type names in the text (package-qualified by package NAME) are exercised by the stage-2 compile, not modelled; "
+        "two imported packages with the same name are covered by a fixed probe (finding class same-package-name)",
     ]
+    rep.notes.append("lexical layer as observed on this tree (all inside Lex.Round): signed ints decimal; uint/uint8..64/uintptr as 0x-hex "
+                     "([]uint8 is spelled []byte); strings via strconv quoting (\\xNN for non-UTF-8 bytes, \\n \\t \\r \\x00 \\uNNNN escapes, "
+                     "never backquotes); floats shortest %g for their width (5e-324, 1.7976931348623157e+308, float32 0.1 -> 0.1); "
+                     "-0.0 printed as -0 and read back as +0 (the only leaf whose bits change; still ==); complex as (a+bi); "
+                     "named basic types print as the bare literal; named containers as p.NSl{...} / p.NM{...}")
     common.proof_part(rep, "C06", thorough_checker=(rep.tier == "thorough"))
     rep.cov["trusted_base"] += [
         "fmt's %#v and the Go compiler (go build of the stage-2 program): exercised on every op, modelled by Lex / evalG",
@@ -77,6 +82,7 @@ def run(rep):
 
     nv = len(rep.violations)
     common.compare_corpus(rep, info, OPS, nontrivial=nontrivial, oracle=oracle, classify=classify)
+    probe_same_package_name(rep)
     # add the returned text to the replay files of behavioural violations
     for what, path, found in rep.violations[nv:]:
         try:
@@ -86,6 +92,42 @@ def run(rep):
                 json.dump(r, open(path, "w"), indent=1)
         except (OSError, ValueError, IndexError):
             pass
+
+
+def known_classes():
+    """witness classes listed under a finding with status "known" in known_findings.json (never written here)"""
+    out = {}
+    try:
+        js = json.load(open(os.path.join(common.VERIF, "known_findings.json")))
+    except (OSError, ValueError):
+        return out
+    for f in js.get("findings", []):
+        if f.get("status") != "known":
+            continue
+        wc = f.get("witness_class") or []
+        for w in ([wc] if isinstance(wc, str) else wc):
+            out[w] = f
+    return out
+
+
+def probe_same_package_name(rep):
+    """Type names are outside the value model, so the shared corpus (one imported package) cannot show what
+    happens when two imported packages share their NAME. A fixed probe asks the real generator."""
+    r = gostring.probe_pkgname()
+    rep.cov["probe_same_package_name"] = {"compiles_and_round_trips": r["ok"], "compiler": r["errors"][:2]}
+    rep.cov["programs"] += 1
+    rep.cov["evaluations"] += 1
+    if r["ok"]:
+        return
+    what = ("the text returned for a value whose type mentions two imported packages with the same NAME spells both as ext.T "
+            "(type names are qualified by package name): it compiles in no importing package; " + "; ".join(r["errors"][:2]))
+    kf = known_classes().get("same-package-name")
+    if kf is not None:
+        rep.known.append("%s %s (replayed on this tree: %s)" % (kf.get("id", "?"), kf.get("what", what)[:300], (r["errors"] + [""])[0][:200]))
+        return
+    rep.violation(what[:900], {"type": "type Two struct{ X aext.T; Y *bext.T }  // aext \"probe/a/ext\", bext \"probe/b/ext\", both `package ext`",
+                               "value": "&Two{X: aext.T{A: 1}, Y: &bext.T{B: \"x\"}}", "text": r["text"], "compiler": r["errors"],
+                               "probe": "vlib/gostring.py probe_pkgname"}, True)
 
 
 def op_line(info, opid):
